@@ -372,24 +372,80 @@ OBS_CORE = ("node-folder-scan", "node-file-scan", "node-os-scan", "node-service-
             "node-session-remote-login", "node-folder-restore", "node-service-fix", "node-file-access", "node-file-create")
 
 
+SCAN_FIRST = ("node-folder-scan", "node-file-scan", "node-os-scan", "node-service-scan", "node-application-scan")
+
+
 def plan(tier):
     P = []
     g = HE.GEN
+    # per-kind scan flags that differ from each other (services gated, applications not, and the reverse)
+    mixed1 = dict(g[0], name="c09-mixed-scan-1", scan_svc=True, scan_app=False, scan_fs=True)
+    mixed2 = dict(g[2], name="c09-mixed-scan-2", scan_svc=False, scan_app=True, scan_fs=False)
+    for v in (mixed1, mixed2):
+        P.append((v["name"], HE.gen_scenario(v), "bfs", dict(depth=1, budget=60000, variant=v)))
+    # 'scan first' base script: states in which scans have completed are the start of the single deviations
+    sf = dict(g[2], name="c09-scan-first", ep_len=16)
+    P.append((sf["name"], HE.gen_scenario(sf), "dev", dict(H=12 if tier != "thorough" else 16, k=1, core=True, core_names=OBS_CORE,
+                                                            scan_first=True, variant=sf)))
     members = [g[0], g[1], g[2], g[3]] if tier == "thorough" else [g[1], g[2]]
     for v in members:
         cfg = HE.gen_scenario(v)
         P.append((v["name"], cfg, "bfs", dict(depth=2 if tier == "thorough" else 1, budget=60000)))
         P.append((v["name"], cfg, "dev", dict(H=(2 * v["ep_len"] + 2) if tier == "thorough" else v["ep_len"] + 2, k=1,
                                                 core=tier != "thorough", core_names=OBS_CORE)))
+    if tier == "thorough":
+        v = g[2]
+        P.append((v["name"] + "-k2", HE.gen_scenario(v), "dev", dict(H=12, k=2, core=True, core_names=OBS_CORE)))
     P.append(("data_manipulation", HE.SHIPPED["data_manipulation"], "dev", dict(H=30 if tier == "thorough" else 8, k=1, reset_seed=None,
                                                                              core=tier != "thorough", core_names=OBS_CORE)))
     return P
 
 
+_ORIG_MAKE = c01.make_adapter
+
+
+def _make_adapter(name, cfg, p, oracles):
+    ad = _ORIG_MAKE(name, cfg, p, oracles)
+    if p.get("scan_first"):
+        idx = c01.core_alphabet(cfg, SCAN_FIRST)
+
+        def default_event(s, t, idx=idx):
+            # slots 0..n-1: one scan action each (folder, file, os, service, application), then do-nothing
+            return ("a", idx[t]) if t < len(idx) else ("a", 0)
+
+        ad.default_event = default_event
+    return ad
+
+
+def _install_scan_first(pl):
+    c01.make_adapter = _make_adapter
+
+
+_VARIANTS = {}
+
+
+def _cfg_for(name):
+    if name in _VARIANTS:
+        return HE.gen_scenario(_VARIANTS[name])
+    return c01._cfg_for(name)
+
+
 def replay(doc):
+    for n, c, m, p in plan("thorough") + plan("quick"):
+        if "variant" in p:
+            _VARIANTS[n] = p["variant"]
     name = doc["params"]["scenario_name"]
-    cfg = c01._cfg_for(name)
-    return c01.replay(doc, [GroundTruthOracle(cfg)])
+    cfg = _cfg_for(name)
+    _install_scan_first(None)
+    ad = c01.make_adapter(name, cfg, doc["params"]["p"], [GroundTruthOracle(cfg)])
+    s = ad.build()
+    out = list(ad.check_initial(s))
+    for ev in doc["history"]:
+        ad.apply(s, tuple(ev))
+    if doc.get("event") is not None:
+        _, v = ad.apply(s, tuple(doc["event"]))
+        out += v
+    return out
 
 
 def run(tier, is_known):
@@ -406,7 +462,8 @@ def run(tier, is_known):
         idx["i"] += 1
         return [GroundTruthOracle(cfg)]
 
-    res = c01.explore(tier, is_known, factory, PROP, plan=pl)
+    _install_scan_first(pl)
+    res = c01.explore(tier, is_known, factory, PROP, plan=[(n, c, m, {k: v for k, v in p.items() if k != "variant"}) for n, c, m, p in pl])
     res["assumptions"] += [
         "documented encoding: enum value; 0 for absent components and for everything under a node that is not ON; visible value when "
         "*_requires_scan else true value; counts binned by the scenario thresholds (default 0/5/10); traffic/load bin min(int(u*9)+1,10); "
